@@ -163,7 +163,7 @@ def evaluate_multiname_order(run):
 # the sets whose iteration order can leave the constructing expression (returned, iterated, passed on), each with the reason the order
 # cannot reach an answer; sets used only for membership / size / set algebra / sorted(...) need no entry (order_can_escape decides)
 SET_SITES_ALLOWED = {
-    ('supp/scope.py', 'Flow.parent_names'): (3, 'nameset / nrow / outer_names: rows are re-ordered by MultiName.__init__ (proved above); table key order never reaches an output (assist sorts, lint walks reads and regions)'),
+    ('supp/scope.py', 'Flow.parent_names'): (4, 'nameset / nrow / outer_names (function and class branch): rows are re-ordered by MultiName.__init__ (proved above); table key order never reaches an output (assist sorts, lint walks reads and regions)'),
     ('supp/name.py', 'AdditionalNameWrapper.attr_list'): (2, 'a set of attribute names: assist sorts'),
     ('supp/name.py', 'CompositeValue.attr_list'): (1, 'a set of attribute names: assist sorts'),
     ('supp/name.py', 'MultiValue.attr_list'): (1, 'a set of attribute names: assist sorts'),
